@@ -1118,6 +1118,11 @@ class WasmToIrCompiler:
         ir_typ = self.get_ir_type(itype)
         b = self.pop_value(ir_typ=ir_typ)
         a = self.pop_value(ir_typ=ir_typ)
+        if opname in ["shl", "shr_s", "shr_u"]:
+            # Wasm takes the shift count modulo the bit width. What an
+            # ir shift by the bit width or more yields depends on the target.
+            mask = self.emit(ir.Const(ir_typ.bits - 1, "shift_mask", ir_typ))
+            b = self.emit(ir.Binop(b, "&", mask, "shift_count", ir_typ))
         do_unsigned = "_u" in opname
         if do_unsigned:
             # Unsigned operation, first cast to unsigned:
